@@ -27,11 +27,13 @@ Verdict(e) ==
   IF e.panic # "" THEN "panic"
   ELSE IF e.op = "issynced" THEN IsSyncedVerdict(e)
   ELSE IF e.op = "syncgap" THEN GapVerdict(e)
-  ELSE IF S!Found(e.stream) THEN
+  ELSE LET st == SubSeq(e.stream, e.skipn + 1, Len(e.stream)) IN    \* (e.skipn bytes were consumed before the reader was handed over)
+  IF e.skipn > Len(e.stream) THEN "harness-bad-prefix"
+  ELSE IF S!Found(st) THEN
        IF e.err # "nil" THEN "error-though-header-present"
-       ELSE IF e.off # S!First(e.stream) THEN "offset"
+       ELSE IF e.off # S!First(st) THEN "offset"
        ELSE IF e.again_err # "nil" \/ e.again_off # 0 THEN "second-sync-on-a-synced-reader-moved"
-       ELSE IF e.rest # S!Rest(e.stream) THEN "reader-position"
+       ELSE IF e.rest # S!Rest(st) THEN "reader-position"
        ELSE ""
   ELSE IF e.err # "notfound" THEN "not-found-error"
   ELSE ""
